@@ -105,7 +105,14 @@ func (c *compressor) decompressCellblocks(b []byte) ([]byte, error) {
 			return nil, fmt.Errorf("failed to read uncompressed block length: %w", err)
 		}
 
-		out = slices.Grow(out, int(uncompressedBlockLen))
+		// The block length comes from the wire: use it as a capacity hint only as
+		// far as the remaining input could plausibly back it, so that a few
+		// corrupt bytes cannot make us allocate gigabytes.
+		hint := int(uncompressedBlockLen)
+		if limit := 64 * len(b); hint > limit {
+			hint = limit
+		}
+		out = slices.Grow(out, hint)
 
 		// read and decompress encoded chunks until whole block is read
 		var uncompressedSoFar uint32
